@@ -394,9 +394,9 @@ func checkProperty(p *Program, prop, tier string, timeoutS, workers int, start t
 		"wall_s":      wall,
 		"violations":  len(violations),
 		"coverage": map[string]interface{}{
-			"obligations":              nObl,
-			"discharged":               nDis + len(known),
-			"discharged_outright":      nDis,
+			"obligations":              nObl - len(known),
+			"discharged":               nDis,
+			"obligations_failing_as_known_findings": len(known),
 			"checker_cmd":              fmt.Sprintf("/verif/bin/govc check -p %s -tier %s (VCs from go/ssa of /repo working tree; solvers z3-new 5.1.0, z3 4.8.12, cvc5 1.0.3; timeout %ds)", prop, tier, timeoutS),
 			"trusted_base":             sortedKeys(trusted),
 			"functions_under_contract": funcsUnder,
